@@ -17,3 +17,17 @@ class PlainListener(plumpy.ProcessListener):
 
     def __eq__(self, other):
         return type(other) is type(self) and getattr(other, '_params', None) == getattr(self, '_params', None)
+
+
+class PauseEachStep(plumpy.ProcessListener):
+    """Pauses the process every time it enters RUNNING, so that each play() advances it by exactly one step
+    (used to make synchronous workchains progress gradually between persister operations)."""
+
+    def __hash__(self):
+        return 11
+
+    def __eq__(self, other):
+        return type(other) is type(self)
+
+    def on_process_running(self, process):
+        process.pause()
